@@ -190,6 +190,27 @@ def a1(prog: Program, chk: Check) -> None:
                                                                c.methods[a].node.decorator_list)
                                                        for c in fam)}
             stale = sorted(state_reads & public)
+            # private state that another method of the family rewrites or mutates in place
+            # (without clearing this cache) is as writable as a public attribute
+            mutated: Dict[str, str] = {}
+            for c in fam:
+                for wname, wu in c.methods.items():
+                    if wname in ("__init__", "__new__") or wname == mname:
+                        continue
+                    if any(isinstance(x, ast.Call) and isinstance(x.func, ast.Attribute)
+                           and x.func.attr == "cache_clear" and mname in norm(x.func.value)
+                           for x in walk_local(wu.node)):
+                        continue
+                    for w in _self_writes(wu.node):
+                        mutated.setdefault(w[5:], f"{c.name}.{wname}")
+            hit = sorted(a for a in state_reads if a in mutated and a not in stale)
+            if hit:
+                chk.saw(mu)
+                chk.add("A1", mu, f"lru_cache reads {hit}, rewritten by {mutated[hit[0]]}", False,
+                        f"{mutated[hit[0]]}() changes self.{hit[0]} after results computed from it "
+                        f"were memoised under (self, arguments): the object answers according to "
+                        f"its history, an equal freshly built one does not",
+                        function=f"{ci.name}.{mname}")
             construct = f"lru_cache reads public attributes {stale}" if stale else \
                 "lru_cache reads only private, setter-less attributes"
             chk.saw(mu)
